@@ -24,6 +24,12 @@ LAYOUTS = [
     [0.0, 0.0, 0.0],
     [INF, INF, INF],
     [2.5, 7.25, 31.0],
+    # matching scales not ordered like the masses (e.g. a small bottom ratio): the default flow is undefined there,
+    # so only explicit nf are enumerated for these layouts
+    [20.0, 10.0, 30.0],
+    [30.0, 20.0, 10.0],
+    [10.0, 30.0, 20.0],
+    [20.0, 10.0, INF],
 ]
 SCALES = [5.0, 10.0, 15.0, 20.0, 25.0, 30.0, 35.0]
 NF0 = [3, 4, 5, 6, None]
@@ -42,8 +48,11 @@ def evaluate(case):
     res = Result()
     nsteps = 0
     shapes = set()
+    mono = all(a <= b for a, b in zip(walls, walls[1:]))
     for muf in SCALES + ([2.5, 31.0] if case["layout"][0] == 2.5 else []):
         for nff in NFF:
+            if not mono and (nff is None or nf0 is None):
+                continue
             sig0 = f"Atlas.matched_path/nf0={nf0},nff={nff}"
             try:
                 atlas = matchings.Atlas(list(walls), (mu0, nf0))
@@ -110,11 +119,13 @@ def run(ctx):
         extra = [2.5, 31.0] if lay[0] == 2.5 else []
         for mu0 in SCALES + extra:
             for nf0 in NF0:
+                if nf0 is None and any(a > b for a, b in zip(lay, lay[1:])):
+                    continue
                 cases.append({"layout": lay, "origin": [mu0, nf0]})
     results = ctx.run_cases(cases, evaluate)
     ntargets = sum((len(SCALES) + (2 if c["layout"][0] == 2.5 else 0)) * len(NFF) for c in cases)
     ctx.rule = (
-        "complete product of 10 matching-scale layouts (distinct, coincident, zero, infinite) x "
+        "complete product of 14 matching-scale layouts (distinct, coincident, zero, infinite, not ordered like the masses) x "
         "origin scale on a 7-value lattice below/on/between/above the walls x nf0 in {3..6,None} x "
         "target scale on the same lattice x nff in {None,3..6}; every invariant of the statement and "
         "equality with an independent path builder checked on each; a case is an (layout, origin) "
